@@ -27,7 +27,7 @@ INDENTS = ['', '', '', ' ', '  ', '   ', '    ', '     ', '        ', '\t', ' \t
 CONTAINER_PREFIXES = ['> ', '>', '- ', '1. ', '12) ', '+   ', '* ', '>  ', '0. ', '-\t', '  - ', '   > ']
 BLOCK_OPENERS = ['# ', '## ', '###### ', '####### ', '#', '```', '~~~', '````', '``` py', '~~~ a`b', '***', '---', '___',
                  '- - -', '===', '=', '--', '|a|b|', '|:-|-:|', '|---|', 'a|b', '-|-', '[l]: u "t"', '[l]: <u v>', '[l]:',
-                 '[l]: /u\n"t"', '<div>', '</div>', '<!--', '-->', '<?', '?>', '<![CDATA[', ']]>', '<pre>', '</pre>', '<script>',
+                 '[l]: /u\n"t"', '| a | b |\n|---|---|', 'a|b\n-|:-:\nc|d', '|x|\n|-|\n', '<div>', '</div>', '<!--', '-->', '<?', '?>', '<![CDATA[', ']]>', '<pre>', '</pre>', '<script>',
                  '<!X', '<a b="c">', '<span>', '    ', '\t']
 INLINE = ['*', '**', '***', '_', '__', '`', '``', '` `', '[', ']', '](', ')', '][', '[]', '![', '(u)', '(<u v>)', '("t")',
           '&amp;', '&#35;', '&#x22;', '&#0;', '&x;', '&', '\\', '\\*', '\\\\', '\\[', '<http://a.b>', '<a@b.c>', '<x:y z>',
@@ -58,9 +58,28 @@ def line_doc(t, max_lines=14):
     return text
 
 
+EXTRA = [
+    '| a | b |\n|---|---|\n| c | d |\n',
+    '| left | center | right |\n|:-----|:------:|------:|\n| *1* | `2` | [3](u) |\n| 4 | 5 |\n',
+    'a | b\n- | -\nc | d\n\npara\n',
+    'para\n| h |\n| - |\n| x \\| y |\n',
+    '> | q | r |\n> |---|---|\n> | 1 | 2 |\n',
+    '- | i | j |\n  |---|--:|\n  | 1 | 2 |\n',
+    '~~gone~~ and ~~*both*~~\n',
+    'text $x^2$ and $$y_1$$ and [[wiki|page]] and {{macro}}\nbody\n{{/macro}}\n',
+    '```py\nprint(1)\n```\n\n~~~\nraw\n~~~\n',
+    '<div>\n*html*\n</div>\n\n<span>inline</span> text <!-- c -->\n',
+    '1. one\n2. two\n   - nested\n\n     para\n3. three\n',
+    '[ref]: /url "title"\n\n[ref] and [text][ref] and ![img][ref] and [ref][]\n',
+]
+
+
 def corpus_text(t):
-    if t.chance(230):
+    k = t.below(16)
+    if k < 12:
         return t.choice(corpus.spec_inputs())
+    if k < 14:
+        return t.choice(EXTRA)
     return t.choice(corpus.sample_chunks())
 
 
